@@ -49,6 +49,10 @@ type c14Case struct {
 	// packet before the fault is a header-only TDS_BUF_CLOSE packet for the
 	// second channel (the server confirming that channel's teardown)
 	CloseAck bool `json:"close_packet_for_second_channel_before_fault,omitempty"`
+	// HeaderType: header type of the response's packets if not
+	// TDS_BUF_RESPONSE (the library parses the body of a packet whatever
+	// its type; TDS_BUF_CLOSE packets get special treatment at end of stream)
+	HeaderType int `json:"packet_header_type,omitempty"`
 }
 
 func c14Err(style string) error {
@@ -119,6 +123,13 @@ func c14Run(c *Ctx, cs c14Case, ref []string) {
 	r.Eval(1)
 	body, _ := hex.DecodeString(cs.BodyHex)
 	pkts := c02Packets(body, cs.Cuts, nil, false)
+	if cs.HeaderType != 0 {
+		for i := range pkts {
+			p := append([]byte(nil), pkts[i]...)
+			p[0] = byte(cs.HeaderType)
+			pkts[i] = p
+		}
+	}
 	stream := xport.Concat(pkts)
 	if cs.Offset > len(stream) {
 		return
@@ -237,7 +248,7 @@ func c14Run(c *Ctx, cs c14Case, ref []string) {
 	}
 	r.SetAdd("reader_states_at_fault", stClass+"/"+cs.Style)
 	if cs.Offset > 0 && cs.Offset < len(stream) {
-		r.Distinct(fmt.Sprintf("%s|%v|%d|%s|%d|%v|%v|%v", cs.Resp, cs.Cuts, cs.Offset, cs.Style, cs.ReadTimeout, cs.Prelude, cs.SecondChannel, cs.CloseAck))
+		r.Distinct(fmt.Sprintf("%s|%v|%d|%s|%d|%v|%v|%v|%d", cs.Resp, cs.Cuts, cs.Offset, cs.Style, cs.ReadTimeout, cs.Prelude, cs.SecondChannel, cs.CloseAck, cs.HeaderType))
 		if closeAck {
 			r.Count("faults_directly_after_a_close_packet", 1)
 		}
@@ -528,6 +539,12 @@ func runC14(c *Ctx) {
 					cs.SecondChannel = off%4 == 1
 					cs.CloseAck = cs.SecondChannel // effective where the fault is at a packet boundary
 					jobs = append(jobs, job{cs, refOut.d.Dumps})
+					if off%3 == 0 {
+						ht := cs
+						ht.HeaderType = []int{int(tds.TDS_BUF_CLOSE), int(tds.TDS_BUF_NORMAL)}[(off/3)%2]
+						ht.SecondChannel, ht.CloseAck, ht.Prelude = false, false, false
+						jobs = append(jobs, job{ht, refOut.d.Dumps})
+					}
 				}
 			}
 			// every packet boundary once more with a second channel whose
@@ -539,6 +556,10 @@ func runC14(c *Ctx) {
 					cs.Offset, cs.Style, cs.Chunk = bo, st, "per-packet"
 					cs.SecondChannel, cs.CloseAck = true, true
 					jobs = append(jobs, job{cs, refOut.d.Dumps})
+					ht := base
+					ht.Offset, ht.Style, ht.Chunk = bo, st, "per-packet"
+					ht.HeaderType = int(tds.TDS_BUF_CLOSE)
+					jobs = append(jobs, job{ht, refOut.d.Dumps})
 				}
 				if pi < len(pk) {
 					bo += len(pk[pi])
@@ -560,6 +581,53 @@ func runC14(c *Ctx) {
 				jobs = append(jobs, job{cs, refOut.d.Dumps})
 			}
 			r.SetAdd("responses", resp.Name+"/"+cu.name)
+		}
+	}
+	// a package spanning 20 packets, with more packages behind it: the
+	// fault falls around and after the packet that completes the long
+	// package (an implementation may postpone parse attempts while a long
+	// package is incomplete, but not once it is complete)
+	{
+		lc := []srv.Col{{Name: "@blob", Type: srv.TLongBinary, MaxLen: 0x7fffffff, Status: 0x1}}
+		big := make([]byte, 9544)
+		for i := range big {
+			big[i] = byte(i*7 + 1)
+		}
+		var lr response
+		lr.Name = "long-params-20-packets"
+		lr.add("pkg", srv.ParamFmt(true, lc...))
+		lr.add("pkg", srv.Data(srv.TokParams, lc, vals(big)))
+		lr.add("pkg", srv.ReturnStatus(3))
+		lr.add("doneX", srv.Done(srv.TokDoneProc, srv.DoneProc, 0, 0))
+		lr.add(done(0, 1))
+		body := lr.Bytes()
+		var cuts []int
+		for o := 504; o < len(body); o += 504 {
+			cuts = append(cuts, o)
+		}
+		pk := c02Packets(body, cuts, nil, false)
+		if refOut, err := c02Deliver(pk, "reader", nil); err == nil && !refOut.watchdog && len(refOut.d.Errs) == 0 && len(refOut.d.Dumps) > 0 {
+			base := c14Case{Resp: lr.Name, BodyHex: hex.EncodeToString(body), Bounds: lr.Bounds(), Kinds: lr.Kinds, Cuts: cuts, CutClass: "every-504-bytes"}
+			bo := 0
+			for pi := 0; pi < len(pk); pi++ {
+				bo += len(pk[pi])
+				if pi < 14 {
+					continue
+				}
+				for _, d := range []int{0, 1, 8, 9, 200} {
+					if bo+d > len(xport.Concat(pk)) {
+						continue
+					}
+					for _, st := range []string{"eof", "reset", "eof-with-data"} {
+						cs := base
+						cs.Offset, cs.Style, cs.Chunk = bo+d, st, "per-packet"
+						jobs = append(jobs, job{cs, refOut.d.Dumps})
+					}
+				}
+			}
+			r.SetAdd("responses", lr.Name)
+		} else {
+			r.Count("responses_discarded_reference_not_clean", 1)
 		}
 	}
 	r.Count("cases_generated", int64(len(jobs)))
